@@ -62,13 +62,22 @@ let ident_of (s : string) : z =
      | None -> let n = !next_id in incr next_id; Hashtbl.replace names s n; Hashtbl.replace rev_names n s; z_of_int n)
 let name_of (i : z) : string =
   let n = int_of_z i in
-  match Hashtbl.find_opt rev_names n with Some s -> s | None -> "?" ^ string_of_int n
+  match Hashtbl.find_opt rev_names n with
+  | Some s -> s
+  | None ->
+    (* a quoted symbol spelled like a builtin *)
+    (match List.find_opt (fun (_, p) -> int_of_z (prim_ident p) = n) prim_names with
+     | Some (s, _) -> s
+     | None -> "?" ^ string_of_int n)
 
 let is_int_tok s = String.length s > 0 && (let c = s.[0] in (c >= '0' && c <= '9') || (c = '-' && String.length s > 1 && s.[1] >= '0' && s.[1] <= '9'))
 
 let rec datum_of (x : sx) : datum =
   match x with
-  | A t -> if is_int_tok t then DInt (z_of_string t) else DSym (ident_of t)
+  | A t ->
+    if is_int_tok t then DInt (z_of_string t)
+    else if String.length t > 2 && t.[0] = '%' && t.[1] = 'f' then DFlt (z_of_string (String.sub t 2 (String.length t - 2)))
+    else DSym (ident_of t)
   | L xs -> DList (List.map datum_of xs)
 
 let label_of (x : sx) : z option = match x with A "-" -> None | A t -> Some (ident_of t) | _ -> failwith "label"
@@ -123,6 +132,7 @@ let rec show (v : sval) : string =
   | SvFn -> "FN"
   | SvPrim p -> "PRIM:" ^ prim_name p
   | SvCut -> "#"
+  | SvFlt h -> "F" ^ string_of_z h
 
 let show_trace (t : sval list list) : string =
   String.concat ";" (List.map (fun args -> String.concat "," (List.map show args)) t)
